@@ -260,6 +260,47 @@ def scan_table_snapshots(repo, tier, seed):
     return [ob]
 
 
+def scan_popen_interface(repo, tier, seed):
+    """C06 / C02 (with and without psutil): multiprocessing's BaseProcess forwards poll / wait / terminate / kill to the Popen object of the start method;
+    the external contracts Process.join / .kill / .terminate / .exitcode assume loky's Popen offers them. kill() is what the tree-kill falls back to when
+    neither psutil nor pgrep can be used: without it that path raises AttributeError in the manager thread and no worker is killed."""
+    tree = _scan(repo, "loky/backend/popen_loky_posix.py")
+    cls = [n for n in tree.body if isinstance(n, _ast.ClassDef) and n.name == "Popen"]
+    have = sorted(f.name for f in cls[0].body if isinstance(f, _ast.FunctionDef)) if cls else []
+    need = ["kill", "poll", "terminate", "wait"]
+    missing = [m for m in need if m not in have]
+    ob = _ob("loky.backend.popen_loky_posix:Popen:structural/offers-every-method-that-baseprocess-forwards-to-it", not missing, f"defined: {have}; missing: {missing}")
+    if "kill" in missing:
+        ob["replay"] = {"harness": "kill_fallback_without_pgrep", "inputs": {}}
+    return [ob]
+
+
+def scan_process_classes_take_env(repo, tier, seed):
+    """C18 (env overlay, both loky start methods): every loky process class accepts the env= mapping and hands it to LokyProcess, which stores it; a class
+    that does not makes _adjust_process_count fall back (except TypeError) to a process built *without* the overlay, silently."""
+    tree = _scan(repo, "loky/backend/process.py")
+    bad, seen = [], []
+    for cls in [n for n in tree.body if isinstance(n, _ast.ClassDef) and (n.name == "LokyProcess" or any(_ast.unparse(b) == "LokyProcess" for b in n.bases))]:
+        init = [f for f in cls.body if isinstance(f, _ast.FunctionDef) and f.name == "__init__"]
+        if not init:
+            seen.append(f"{cls.name}: inherited")
+            continue
+        f = init[0]
+        params = [a.arg for a in f.args.args + f.args.kwonlyargs]
+        takes = "env" in params or f.args.kwarg is not None
+        forwards = cls.name == "LokyProcess" or any(
+            isinstance(c_, _ast.Call) and _ast.unparse(c_.func) == "super().__init__" and
+            (any(k.arg == "env" and _ast.unparse(k.value) == "env" for k in c_.keywords) or any(k.arg is None for k in c_.keywords))
+            for c_ in _ast.walk(f))
+        seen.append(f"{cls.name}: takes env={takes}, forwards it={forwards}")
+        if not (takes and forwards):
+            bad.append(cls.name)
+    ob = _ob("loky.backend.process:<module>:structural/every-loky-process-class-takes-the-env-overlay-and-hands-it-on", not bad and len(seen) >= 2, "; ".join(seen))
+    if bad:
+        ob["replay"] = {"harness": "env_overlay_per_context", "inputs": {}}
+    return [ob]
+
+
 def scan_bootstrap_guard(repo, tier, seed):
     """C19 / C18: in the entry point of a loky worker (the __main__ block of popen_loky_posix) everything received from the parent - the preparation data,
     spawn.prepare() and the process object with the initializer, initargs and queues it carries - is unpickled inside the bootstrapping guard
@@ -414,6 +455,7 @@ PROPS["C06"] = dict(
                 "the manager thread (mid-exit) when the forced shutdown arrives.",
     assumptions=["A-atomic", "A-alias", "A-posix"],
     abstractions=EXEC_ABS,
+    extra=[scan_popen_interface],
 )
 PROPS["C07"] = dict(
     proved="a worker leaves on time-out only after taking (and releasing) the management lock, never with a call item in hand, always announces its pid before "
@@ -662,7 +704,7 @@ PROPS["C18"] = dict(
                 "(calls each chained initializer with its own arguments: a zip over a heap list, not under contract) and the viztracer introspection (third party).",
     assumptions=["A-posix", "A-fds", "A-user", "A-finalize", "A-tracker-stable", "A-spawn"],
     abstractions=EXEC_ABS,
-    extra=[scan_worker_spawn_sites],
+    extra=[scan_worker_spawn_sites, scan_process_classes_take_env],
 )
 PROPS["C20"] = dict(
     proved="ownership accounting over a ghost set of open descriptors: fork_exec, Popen._launch and ResourceTracker.ensure_running close or hand to an owner every "
